@@ -14,8 +14,14 @@ variable {α : Type}
 /-- An implementation register stands for a specification register: a frame (lazily backed or not)
 for the frame with the same schema and listing; a *spent* frame for any frame (nothing is claimed
 about it); values, errors and list iterators for themselves. -/
+theorem lt_of_get {β : Type} {l : List β} {i : Nat} {a : β} (h : l[i]? = some a) : i < l.length := by
+  rcases Nat.lt_or_ge i l.length with h1 | h1
+  · exact h1
+  · rw [List.getElem?_eq_none_iff.mpr h1] at h; cases h
+
 inductive Rel : IReg α → SReg α → Prop
   | frame (sch : Schema) (l : Bool) (rows : List (List α)) : Rel (.frame sch l rows) (.frame sch rows)
+  | defer (src : Nat) (sch : Schema) (rows : List (List α)) : Rel (.defer src sch rows) (.frame sch rows)
   | spent (sch : Schema) (rows : List (List α)) : Rel .spent (.frame sch rows)
   | val (v : Val α) : Rel (.val v) (.val v)
   | err (c : String) : Rel (.err c) (.err c)
@@ -44,6 +50,35 @@ theorem Sim.iter_of {st : List (IReg α)} {sp : List (SReg α)} (h : Sim st sp) 
     sp[s]? = some (.iter rows pos) := by
   obtain ⟨b, hb, hr⟩ := h.get hs
   cases hr; exact hb
+
+theorem Sim.defer_of {st : List (IReg α)} {sp : List (SReg α)} (h : Sim st sp) {s src : Nat} {sch : Schema}
+    {rows : List (List α)} (hs : st[s]? = some (.defer src sch rows)) :
+    sp[s]? = some (.frame sch rows) := by
+  obtain ⟨b, hb, hr⟩ := h.get hs
+  cases hr; exact hb
+
+theorem frameOf_cases {st : List (IReg α)} {s : Nat} {sch : Schema} {rows : List (List α)}
+    (h : frameOf st s = some (sch, rows)) :
+    (∃ l, st[s]? = some (.frame sch l rows)) ∨ (∃ src, st[s]? = some (.defer src sch rows)) := by
+  unfold frameOf at h
+  cases hs : st[s]? with
+  | none => rw [hs] at h; cases h
+  | some r =>
+    rw [hs] at h
+    cases r with
+    | frame sch2 l2 rows2 => simp only [Option.some.injEq, Prod.mk.injEq] at h; obtain ⟨rfl, rfl⟩ := h; exact Or.inl ⟨l2, rfl⟩
+    | defer src sch2 rows2 => simp only [Option.some.injEq, Prod.mk.injEq] at h; obtain ⟨rfl, rfl⟩ := h; exact Or.inr ⟨src, rfl⟩
+    | spent => cases h
+    | val v => cases h
+    | err c => cases h
+    | iter r p => cases h
+    | giter g => cases h
+
+theorem Sim.frameOf_of {st : List (IReg α)} {sp : List (SReg α)} (h : Sim st sp) {s : Nat} {sch : Schema}
+    {rows : List (List α)} (hs : frameOf st s = some (sch, rows)) : sp[s]? = some (.frame sch rows) := by
+  rcases frameOf_cases hs with ⟨l, h1⟩ | ⟨src, h1⟩
+  · exact h.frame_of h1
+  · exact h.defer_of h1
 
 theorem Sim.push {st : List (IReg α)} {sp : List (SReg α)} (h : Sim st sp) {a : IReg α} {b : SReg α}
     (hr : Rel a b) : Sim (st ++ [a]) (sp ++ [b]) := by
@@ -103,36 +138,61 @@ theorem Sim.set2 {st : List (IReg α)} {sp : List (SReg α)} (h : Sim st sp) (s 
 theorem rel_ofSpec (l : Bool) (x : SReg α) : Rel (ofSpec l x) x := by
   cases x <;> simp only [ofSpec] <;> constructor
 
+/-! ### registers that lose their rows -/
+
+theorem spendSet_get (D : List Nat) (st : List (IReg α)) (i : Nat) (a : IReg α) (h : st[i]? = some a) :
+    (spendSet D st)[i]? = some (if spendable a && D.contains i then .spent else a) := by
+  unfold spendSet
+  rw [List.getElem?_mapIdx, h]; rfl
+
+@[simp] theorem spendSet_length (D : List Nat) (st : List (IReg α)) : (spendSet D st).length = st.length := by
+  unfold spendSet; simp
+
+/-- A register that holds no unread generator (a materialised frame, a value, an iterator) keeps what it holds. -/
+theorem spendSet_other (D : List Nat) (st : List (IReg α)) (i : Nat) (a : IReg α) (h : st[i]? = some a)
+    (hn : spendable a = false) : (spendSet D st)[i]? = some a := by
+  rw [spendSet_get D st i a h]; simp [hn]
+
+theorem Sim.spendSet {st : List (IReg α)} {sp : List (SReg α)} (h : Sim st sp) (D : List Nat) :
+    Sim (spendSet D st) sp := by
+  refine ⟨by rw [spendSet_length]; exact h.1, ?_⟩
+  intro i x y hx hy
+  have hi : i < st.length := by have := lt_of_get hx; rwa [spendSet_length] at this
+  have ha : st[i]? = some st[i] := List.getElem?_eq_getElem hi
+  rw [spendSet_get D st i _ ha] at hx
+  have hr := h.2 i _ y ha hy
+  simp only [Option.some.injEq] at hx
+  subst hx
+  split
+  · rename_i hc
+    simp only [Bool.and_eq_true] at hc
+    generalize st[i] = a at hr hc
+    cases hr <;> first | exact Rel.spent _ _ | (simp [spendable] at hc)
+  · exact hr
+
+@[simp] theorem handOver_length (st : List (IReg α)) (s : Nat) : (handOver st s).length = st.length := by
+  unfold handOver; simp
+
+@[simp] theorem drain_length (st : List (IReg α)) (s : Nat) : (drain st s).length = st.length := by
+  unfold drain; simp
+
+theorem handOver_other (st : List (IReg α)) (s i : Nat) (a : IReg α) (h : st[i]? = some a)
+    (hn : spendable a = false) : (handOver st s)[i]? = some a := spendSet_other _ st i a h hn
+
+theorem drain_other (st : List (IReg α)) (s i : Nat) (a : IReg α) (h : st[i]? = some a)
+    (hn : spendable a = false) : (drain st s)[i]? = some a := spendSet_other _ st i a h hn
+
+theorem Sim.handOver {st : List (IReg α)} {sp : List (SReg α)} (h : Sim st sp) (s : Nat) : Sim (handOver st s) sp :=
+  h.spendSet _
+
+theorem Sim.drain {st : List (IReg α)} {sp : List (SReg α)} (h : Sim st sp) (s : Nat) : Sim (drain st s) sp :=
+  h.spendSet _
+
 /-! ### `materialise` -/
 
-theorem materialise_get (st : List (IReg α)) (s i : Nat) (sch : Schema) (l : Bool) (rows : List (List α))
-    (h : st[i]? = some (.frame sch l rows)) :
-    ∃ l', (materialise st s)[i]? = some (.frame sch l' rows) ∧ (i = s → l' = false) ∧ (l = false → l' = false) := by
-  unfold materialise
-  cases hs : st[s]? with
-  | none => exact ⟨l, h, (fun e => by subst e; rw [h] at hs; cases hs), id⟩
-  | some r =>
-    cases r with
-    | frame sch2 l2 rows2 =>
-      simp only
-      by_cases e : s = i
-      · subst e
-        rw [h] at hs; cases hs
-        have hl : s < st.length := by
-          rcases Nat.lt_or_ge s st.length with h1 | h1
-          · exact h1
-          · rw [List.getElem?_eq_none_iff.mpr h1] at h; cases h
-        exact ⟨false, (by rw [List.getElem?_set_self hl]), (fun _ => rfl), (fun _ => rfl)⟩
-      · exact ⟨l, (by rw [List.getElem?_set_ne e]; exact h), (fun e' => absurd e'.symm e), id⟩
-    | spent => exact ⟨l, h, (fun e => by subst e; rw [h] at hs; cases hs), id⟩
-    | val v => exact ⟨l, h, (fun e => by subst e; rw [h] at hs; cases hs), id⟩
-    | err c => exact ⟨l, h, (fun e => by subst e; rw [h] at hs; cases hs), id⟩
-    | iter r p => exact ⟨l, h, (fun e => by subst e; rw [h] at hs; cases hs), id⟩
-    | giter g => exact ⟨l, h, (fun e => by subst e; rw [h] at hs; cases hs), id⟩
-
-/-- `materialise` never changes a register that is not a lazily backed frame. -/
+/-- `materialise` never changes a register that holds no unread generator. -/
 theorem materialise_other (st : List (IReg α)) (s i : Nat) (a : IReg α) (h : st[i]? = some a)
-    (hn : ∀ sch rows, a ≠ .frame sch true rows) : (materialise st s)[i]? = some a := by
+    (hn : spendable a = false) : (materialise st s)[i]? = some a := by
   unfold materialise
   cases hs : st[s]? with
   | none => exact h
@@ -143,22 +203,34 @@ theorem materialise_other (st : List (IReg α)) (s i : Nat) (a : IReg α) (h : s
       by_cases e : s = i
       · subst e
         rw [h] at hs; cases hs
-        have hl : s < st.length := by
-          rcases Nat.lt_or_ge s st.length with h1 | h1
-          · exact h1
-          · rw [List.getElem?_eq_none_iff.mpr h1] at h; cases h
-        rw [List.getElem?_set_self hl]
+        rw [List.getElem?_set_self (lt_of_get h)]
         cases l2 with
         | false => rfl
-        | true => exact absurd rfl (hn sch2 rows2)
+        | true => simp [spendable] at hn
       · rw [List.getElem?_set_ne e]; exact h
+    | defer src sch2 rows2 =>
+      simp only
+      by_cases e : s = i
+      · subst e
+        rw [h] at hs; cases hs; simp [spendable] at hn
+      · rw [List.getElem?_set_ne e]; exact spendSet_other _ st i a h hn
     | spent => exact h
     | val v => exact h
     | err c => exact h
     | iter r p => exact h
     | giter g => exact h
 
-theorem materialise_length (st : List (IReg α)) (s : Nat) : (materialise st s).length = st.length := by
+/-- Materialising a live register leaves it as a materialised frame with the rows it stood for. -/
+theorem materialise_self (st : List (IReg α)) (s : Nat) (sch : Schema) (rows : List (List α))
+    (h : frameOf st s = some (sch, rows)) : (materialise st s)[s]? = some (.frame sch false rows) := by
+  unfold materialise
+  rcases frameOf_cases h with ⟨l, h1⟩ | ⟨src, h1⟩
+  · rw [h1]; simp only
+    rw [List.getElem?_set_self (lt_of_get h1)]
+  · rw [h1]; simp only
+    rw [List.getElem?_set_self (by rw [spendSet_length]; exact lt_of_get h1)]
+
+@[simp] theorem materialise_length (st : List (IReg α)) (s : Nat) : (materialise st s).length = st.length := by
   unfold materialise
   split <;> simp
 
@@ -176,11 +248,26 @@ theorem Sim.materialise {st : List (IReg α)} {sp : List (SReg α)} (h : Sim st 
       rw [h.frame_of hs] at hb
       cases hb
       constructor
+    | defer src sch rows =>
+      simp only
+      apply (h.spendSet _).setL
+      intro b hb
+      rw [h.defer_of hs] at hb
+      cases hb
+      constructor
     | spent => exact h
     | val v => exact h
     | err c => exact h
     | iter r p => exact h
     | giter g => exact h
+
+theorem frameOf_eager (st : List (IReg α)) (s : Nat) (sch : Schema) (rows : List (List α))
+    (h : st[s]? = some (.frame sch false rows)) : frameOf st s = some (sch, rows) := by
+  simp [frameOf, h]
+
+theorem rowsNow_eager (st : List (IReg α)) (s : Nat) (sch : Schema) (rows rows' : List (List α))
+    (h : st[s]? = some (.frame sch false rows)) : rowsNow st s rows' = rows' := by
+  simp [rowsNow, h]
 
 theorem isLazy_false_of (st : List (IReg α)) (s : Nat) (sch : Schema) (rows : List (List α))
     (h : st[s]? = some (.frame sch false rows)) : isLazy st s = false := by
@@ -229,36 +316,41 @@ variable [DecidableEq α]
 theorem get_push {β : Type} (l : List β) (x : β) (i : Nat) (h : i < l.length) : (l ++ [x])[i]? = l[i]? :=
   List.getElem?_append_left h
 
-theorem lt_of_get {β : Type} {l : List β} {i : Nat} {a : β} (h : l[i]? = some a) : i < l.length := by
-  rcases Nat.lt_or_ge i l.length with h1 | h1
-  · exact h1
-  · rw [List.getElem?_eq_none_iff.mpr h1] at h; cases h
-
 /-- One step never changes a materialised frame, except `append` to that very frame. -/
 theorem implStep_materialised (st st' : List (IReg α)) (op : Op α) (h : implStep st op = some st')
     (i : Nat) (sch : Schema) (rows : List (List α)) (hi : st[i]? = some (.frame sch false rows)) :
     st'[i]? = some (.frame sch false (rows ++ appended i [op])) := by
   have hlt := lt_of_get hi
-  have hnl : ∀ sch' rows', (IReg.frame sch false rows : IReg α) ≠ .frame sch' true rows' := by
-    intro _ _ hc; cases hc
-  have hm : ∀ s, (materialise st s)[i]? = some (.frame sch false rows) := fun s => materialise_other st s i _ hi hnl
+  have hnl : spendable (IReg.frame sch false rows : IReg α) = false := rfl
+  have hm : ∀ (st0 : List (IReg α)) s, st0[i]? = some (.frame sch false rows) →
+      (materialise st0 s)[i]? = some (.frame sch false rows) := fun st0 s h0 => materialise_other st0 s i _ h0 hnl
+  have hd : ∀ (st0 : List (IReg α)) s, st0[i]? = some (.frame sch false rows) →
+      (drain st0 s)[i]? = some (.frame sch false rows) := fun st0 s h0 => drain_other st0 s i _ h0 hnl
+  have hh : ∀ (st0 : List (IReg α)) s, st0[i]? = some (.frame sch false rows) →
+      (handOver st0 s)[i]? = some (.frame sch false rows) := fun st0 s h0 => handOver_other st0 s i _ h0 hnl
   cases op with
   | un u s =>
     simp only [appended, List.append_nil]
     simp only [implStep] at h
     split at h
-    · rename_i sch2 l2 rows2 hs
-      split at h
+    · split at h
       · cases h; rw [get_push _ _ _ hlt]; exact hi
       · split at h
-        · cases h; rw [get_push _ _ _ (by rw [materialise_length]; exact hlt)]; exact hm s
+        · cases h; rw [get_push _ _ _ (by simp; exact hlt)]; exact hm st s hi
         · split at h
-          · cases h
-            rw [get_push _ _ _ (by rw [List.length_set]; exact hlt)]
-            have : s ≠ i := by
-              intro e; subst e; rw [hi] at hs; cases hs; simp at *
-            rw [List.getElem?_set_ne this]; exact hi
           · cases h; rw [get_push _ _ _ hlt]; exact hi
+          · split at h
+            · cases h; rw [get_push _ _ _ (by simp; exact hlt)]; exact hh st s hi
+            · cases h; rw [get_push _ _ _ hlt]; exact hi
+    · split at h
+      · cases h; rw [get_push _ _ _ (by simp; exact hlt)]; exact hm st s hi
+      · split at h
+        · cases h; rw [get_push _ _ _ hlt]; exact hi
+        · split at h
+          · cases h; rw [get_push _ _ _ (by simp; exact hlt)]; exact hh st s hi
+          · split at h
+            · cases h; rw [get_push _ _ _ (by simp; exact hlt)]; exact hd st s hi
+            · cases h; rw [get_push _ _ _ hlt]; exact hi
     · cases h
   | add s t =>
     simp only [appended, List.append_nil]
@@ -269,13 +361,11 @@ theorem implStep_materialised (st st' : List (IReg α)) (op : Op α) (h : implSt
       · -- whatever the table says: each operand is materialised or left alone
         generalize Gen.Frame.materialisesFirst "__add__" = b1 at h
         generalize Gen.Frame.materialisesFirst "__add__.other" = b2 at h
-        have hmm : (materialise (materialise st s) t)[i]? = some (.frame sch false rows) :=
-          materialise_other _ t i _ (hm s) hnl
         cases b1 <;> cases b2 <;> simp only [if_true, if_false, Bool.false_eq_true] at h <;>
           (split at h <;>
             (cases h
              rw [get_push _ _ _ (by first | exact hlt | (simp only [materialise_length]; exact hlt))]
-             first | exact hi | exact hm _ | exact hmm))
+             first | exact hi | exact hm _ _ hi | exact hm _ _ (hm _ _ hi)))
     · cases h
   | append s r =>
     simp only [implStep] at h
@@ -308,7 +398,13 @@ theorem implStep_materialised (st st' : List (IReg α)) (op : Op α) (h : implSt
       · simp only [Bool.false_eq_true, if_false] at h
         split at h <;> (cases h; rw [get_push _ _ _ hlt]; exact hi)
       · simp only [if_true] at h
-        cases h; rw [get_push _ _ _ (by rw [materialise_length]; exact hlt)]; exact hm s
+        cases h; rw [get_push _ _ _ (by simp; exact hlt)]; exact hm st s hi
+    · generalize Gen.Frame.materialisesFirst "__iter__" = b at h
+      cases b
+      · simp only [Bool.false_eq_true, if_false] at h
+        cases h; rw [get_push _ _ _ hlt]; exact hi
+      · simp only [if_true] at h
+        cases h; rw [get_push _ _ _ (by simp; exact hlt)]; exact hm st s hi
     · cases h
   | next it k =>
     simp only [appended, List.append_nil]
@@ -332,25 +428,24 @@ theorem implStep_materialised (st st' : List (IReg α)) (op : Op α) (h : implSt
     simp only [appended, List.append_nil]
     simp only [implStep] at h
     split at h
-    · rename_i sa la ra sb lb rb hs ht
-      generalize Gen.Frame.materialisesFirst "__iter__" = b at h
+    · generalize Gen.Frame.materialisesFirst "__iter__" = b at h
+      have key : ∀ (st0 : List (IReg α)) (c : Bool) (x : Nat), st0[i]? = some (.frame sch false rows) →
+          (if c = true then drain st0 x else st0)[i]? = some (.frame sch false rows) := by
+        intro st0 c x h0
+        cases c
+        · simpa using h0
+        · simpa using hd st0 x h0
+      have klen : ∀ (st0 : List (IReg α)) (c : Bool) (x : Nat), (if c = true then drain st0 x else st0).length = st0.length := by
+        intro st0 c x; cases c <;> simp
       cases b
       · simp only [Bool.false_eq_true, if_false] at h
         cases h
-        have hs' : la = true → s ≠ i := by
-          intro hl e; subst e; rw [hi] at hs; cases hs; cases hl
-        have ht' : lb = true → t ≠ i := by
-          intro hl e; subst e; rw [hi] at ht; cases ht; cases hl
-        cases la <;> cases lb <;> simp only [if_true, if_false, Bool.false_eq_true]
-        · rw [get_push _ _ _ hlt]; exact hi
-        · rw [get_push _ _ _ (by rw [List.length_set]; exact hlt), List.getElem?_set_ne (ht' rfl)]; exact hi
-        · rw [get_push _ _ _ (by rw [List.length_set]; exact hlt), List.getElem?_set_ne (hs' rfl)]; exact hi
-        · rw [get_push _ _ _ (by rw [List.length_set, List.length_set]; exact hlt),
-              List.getElem?_set_ne (ht' rfl), List.getElem?_set_ne (hs' rfl)]; exact hi
+        rw [get_push _ _ _ (by rw [klen, klen]; exact hlt)]
+        exact key _ _ _ (key _ _ _ hi)
       · simp only [if_true] at h
         cases h
-        rw [get_push _ _ _ (by rw [materialise_length, materialise_length]; exact hlt)]
-        exact materialise_other _ t i _ (hm s) hnl
+        rw [get_push _ _ _ (by simp; exact hlt)]
+        exact hm _ _ (hm _ _ hi)
     · cases h
 
 /-! ### whole programs: appended rows, iterators -/
@@ -504,16 +599,15 @@ end
 
 theorem liveB_sound (st : List (IReg α)) (s : Nat) (h : liveB st s = true) : live st s := by
   unfold liveB at h
-  split at h
-  · rename_i sch l rows hs; exact ⟨sch, l, rows, hs⟩
-  · cases h
+  obtain ⟨⟨sch, rows⟩, hx⟩ := Option.isSome_iff_exists.mp h
+  exact ⟨sch, rows, hx⟩
 
 theorem wfOpB_sound (st : List (IReg α)) (op : Op α) (h : wfOpB st op = true) : wfOp st op := by
   cases op with
   | un u s => exact liveB_sound st s h
   | add s t =>
     simp only [wfOpB, Bool.and_eq_true] at h
-    exact ⟨liveB_sound st s h.1, liveB_sound st t h.2⟩
+    exact ⟨liveB_sound st s h.1, liveB_sound _ t h.2⟩
   | append s r =>
     simp only [wfOpB, Bool.and_eq_true, Bool.not_eq_true'] at h
     obtain ⟨h1, h2⟩ := h
@@ -530,7 +624,7 @@ theorem wfOpB_sound (st : List (IReg α)) (op : Op α) (h : wfOpB st op = true) 
     · cases h
   | zip s t =>
     simp only [wfOpB, Bool.and_eq_true] at h
-    exact ⟨liveB_sound st s h.1, liveB_sound st t h.2⟩
+    exact ⟨liveB_sound st s h.1, liveB_sound _ t h.2⟩
 
 theorem wfProgB_sound' [DecidableEq α] (prog : List (Op α)) (st : List (IReg α)) (h : wfProgB st prog = true) :
     wfProg st prog := by
